@@ -10,7 +10,7 @@ import (
 )
 
 // hoistChildren re-parents the children of X to X's parent. A child's name stays pinned unless the
-// name is already taken there (or equals X's own name, where either outcome is accepted).
+// name is already taken there by another surviving object (X's own name is free after the delete).
 func hoistChildren(x *expectation, X *xObj) {
 	former := X.par
 	var ch []*xObj
@@ -23,10 +23,7 @@ func hoistChildren(x *expectation, X *xObj) {
 		c.par = former
 	}
 	for _, c := range ch {
-		if strings.EqualFold(c.pre.ID, X.pre.ID) {
-			c.free = true
-			continue
-		}
+		// a child named like X itself (in any letter case) keeps its name: X is gone, so the name is not taken
 		for _, o := range x.objs {
 			if o != c && o != X && o.par == former && strings.EqualFold(o.pre.ID, c.pre.ID) {
 				c.free = true
